@@ -456,9 +456,10 @@ example : (singleAlpha 6 255 63 63 63).2 = true ∧ (singleAlpha 6 254 63 62 63)
 /-- BC4 / BC5 SNORM, the analogue of `bc4_single_exact`: the block `[from_norm(n), from_norm(0), 0, …]` that
 `single_color(value, snorm)` emits on its `closest` branch decodes at all 16 pixels — 8-bit and 16-bit output — to
 exactly the decoder's value of SNORM level `n`, for ALL 255 levels; side by side for BC5 (8 bit, third channel 128).
-Which inputs take the branch is decided in f32 (`|c0_f − value| < 2⁻¹⁶`, not modelled); an 8-bit UNORM input passes
-it only for 0 and 255 (blocks `81 81 00…` → 0 and `7f 81 00…` → 255), every other 8-bit value goes through the float
-palette search and is explored. -/
+Which inputs take the branch is decided in f32 (`|c0_f − value| < 2⁻¹⁶`; `Enc13.snormGuardF32` over the binary32 model);
+an 8-bit UNORM input passes it exactly for 0 and 255 (`Proofs/Enc13F32.snorm_closest_branch_iff`; blocks `81 81 00…` → 0
+and `7f 81 00…` → 255, compared with `dds::encode` on every run), every other 8-bit value goes through the float palette
+search and is explored. -/
 theorem bc4s_closest_exact : ∀ n, n ≤ 254 →
     Bc.decodeBlock .bc4s .u8 (blkOf (bc4sClosest n)) = List.replicate 16 [s8n8 (fromNorm n)] ∧
     Bc.decodeBlock .bc4s .u16 (blkOf (bc4sClosest n)) = List.replicate 16 [s8n16 (fromNorm n)] ∧
